@@ -358,3 +358,89 @@ fn c06_double_acquire_then_session_end() {
     core::mem::forget(r);
     core::mem::forget(store);
 }
+
+// ---------------------------------------------------------------- whole histories through the API
+// (the one-step harnesses above start from a CONSTRUCTED state that satisfies the representation invariant
+// "locked_keys lists every key a client holds or waits for"; a change that stops MAINTAINING that invariant is
+// only visible when the state is produced by the operations themselves)
+// @h props=C06,C07,C17 tier=quick cap=900 desc="history lock(c1), acquire(c2) [waits], session end of c2, release by c1: c2 leaves the queue cancelled, the key ends up free" bounds="key a; 4 operations"
+#[kani::proof]
+#[kani::unwind(5)]
+#[kani::stub(std::mem::MaybeUninit::write, stub_mu_write)]
+#[kani::stub(std::fmt::format, stub_format)]
+#[kani::stub(std::result::Result::ok, stub_result_ok)]
+fn c06_seq_waiter_session_end() {
+    let mut store = Store::default();
+    let r0 = store.lock(cid(1), lkey());
+    assert!(r0.is_ok(), "C06: lock on a free key");
+    let (rx2, _) = aw!(store.acquire_lock(cid(2), lkey()));
+    let mut rx2 = Some(rx2);
+    assert!(rx_state(&mut rx2) == EMPTY, "C06: a waiter is not confirmed while the key is held");
+    assert!(queue_len_of_a(&store) == 1 && queue_at(&store, 0) == Some(cid(2)), "C06: the waiter is queued");
+    let r = aw!(store.unlock_all(cid(2)));
+    assert!(holder_of_a(&store) == Some(cid(1)), "C06: a waiter's session end leaves the holder in place");
+    assert!(queue_len_of_a(&store) == 0, "C06: a session that ends while waiting is removed from the queue");
+    assert!(rx_state(&mut rx2) == CANCELLED, "C06: ... with its request cancelled");
+    let r2 = aw!(store.unlock(cid(1), &lkey()));
+    assert!(matches!(&r2, Ok(None)), "C06: release with an empty queue frees the key (it is not handed to the session that ended)");
+    assert!(holder_of_a(&store).is_none(), "C06: key free");
+    assert!(lock_tree_clean(&store), "C17: lock tree clean");
+    kani::cover!(true);
+    core::mem::forget((r0, r, r2));
+    core::mem::forget(store);
+}
+// @h props=C06,C07,C17 tier=quick cap=900 desc="history acquire(c1), acquire(c2) [waits], session end of c1: c2 becomes holder and is confirmed; session end of c2: key free" bounds="key a; 4 operations"
+#[kani::proof]
+#[kani::unwind(5)]
+#[kani::stub(std::mem::MaybeUninit::write, stub_mu_write)]
+#[kani::stub(std::fmt::format, stub_format)]
+#[kani::stub(std::result::Result::ok, stub_result_ok)]
+fn c06_seq_handover_then_session_end() {
+    let mut store = Store::default();
+    let (rx1, _) = aw!(store.acquire_lock(cid(1), lkey()));
+    let (rx2, _) = aw!(store.acquire_lock(cid(2), lkey()));
+    let (mut rx1, mut rx2) = (Some(rx1), Some(rx2));
+    assert!(rx_state(&mut rx1) == FIRED && rx_state(&mut rx2) == EMPTY, "C06: first asker holds, second waits");
+    let r = aw!(store.unlock_all(cid(1)));
+    assert!(holder_of_a(&store) == Some(cid(2)), "C06: session end of the holder hands the lock to the waiter");
+    assert!(rx_state(&mut rx2) == FIRED, "C06: the new holder is confirmed exactly on hand-over");
+    let r2 = aw!(store.unlock_all(cid(2)));
+    assert!(holder_of_a(&store).is_none(), "C06: a lock obtained by hand-over dies with its session as well");
+    assert!(lock_tree_clean(&store), "C17: lock tree clean");
+    kani::cover!(true);
+    core::mem::forget((r, r2));
+    core::mem::forget(store);
+}
+// @h props=C06,C17 tier=quick cap=900 desc="key held by c1 with c2, c3, c4 waiting; the FIRST waiter gives up, then c1 releases: c3 (not c4) becomes holder, c4 keeps waiting" bounds="key a; 3 waiters"
+#[kani::proof]
+#[kani::unwind(6)]
+#[kani::stub(std::mem::MaybeUninit::write, stub_mu_write)]
+#[kani::stub(std::fmt::format, stub_format)]
+#[kani::stub(std::result::Result::ok, stub_result_ok)]
+fn c06_three_waiters_first_leaves() {
+    let mut cands: VecDeque<(ClientId, Vec<oneshot::Sender<()>>)> = VecDeque::new();
+    let (tx2, rx2) = oneshot::channel::<()>();
+    let (tx3, rx3) = oneshot::channel::<()>();
+    let (tx4, rx4) = oneshot::channel::<()>();
+    cands.push_back((cid(2), vec![tx2]));
+    cands.push_back((cid(3), vec![tx3]));
+    cands.push_back((cid(4), vec![tx4]));
+    let (mut rx2, mut rx3, mut rx4) = (Some(rx2), Some(rx3), Some(rx4));
+    let lock = Lock { holder: cid(1), candidates: cands };
+    let locks = ln1(None, "a", ln0(Some(lock)));
+    let locked_keys = HashMap::from_slots([Some((cid(1), vec![lkey()])), Some((cid(2), vec![lkey()]))]);
+    let mut store = Store { locks, locked_keys, ..Default::default() };
+    let r = aw!(store.unlock(cid(2), &lkey()));
+    assert!(r.is_err(), "C06: a waiter that gives up does not release the lock");
+    assert!(holder_of_a(&store) == Some(cid(1)), "C06: holder unchanged");
+    assert!(rx_state(&mut rx2) == CANCELLED, "C06: the leaving waiter's request is cancelled");
+    assert!(queue_len_of_a(&store) == 2 && queue_at(&store, 0) == Some(cid(3)) && queue_at(&store, 1) == Some(cid(4)), "C06: the remaining waiters keep the order in which they first asked");
+    let r2 = aw!(store.unlock(cid(1), &lkey()));
+    assert!(matches!(&r2, Ok(Some(c)) if *c == cid(3)), "C06: first-come hand-over");
+    assert!(holder_of_a(&store) == Some(cid(3)), "C06: c3 asked before c4");
+    assert!(rx_state(&mut rx3) == FIRED && rx_state(&mut rx4) == EMPTY, "C06: exactly the new holder is confirmed");
+    assert!(lock_tree_clean(&store), "C17: lock tree clean");
+    kani::cover!(true);
+    core::mem::forget((r, r2));
+    core::mem::forget(store);
+}
